@@ -225,6 +225,16 @@ def find_partitions(func_node):
         f = partition_facts(n)
         if f is not None:
             out.append((n, f))
+        elif isinstance(n, ast.For) and isinstance(n.target, ast.Name) and isinstance(n.iter, ast.Call) and dotted(n.iter.func) == "range" and not n.orelse:
+            # the same partition written as a loop that slices as it goes: `for i in range(0, len(X), S): ... X[i : i + S] ...`
+            slices = [x for b in n.body for x in ast.walk(b) if isinstance(x, ast.Subscript) and isinstance(x.slice, ast.Slice)
+                      and any(isinstance(y, ast.Name) and y.id == n.target.id for y in ast.walk(x.slice))]
+            if len(slices) == 1:
+                comp = ast.ListComp(elt=slices[0], generators=[ast.comprehension(target=n.target, iter=n.iter, ifs=[], is_async=0)])
+                f = partition_facts(comp)
+                if f is not None:
+                    f["inline_slice"] = slices[0]
+                    out.append((n, f))
     return out
 
 
